@@ -484,8 +484,10 @@ def resolve(model: RefDir, op):
                 return None
             return {'a': 'plain_unit', 'type': tn, 'sym': s,
                     'expect': 'reject', 'bad': 'dup_symbol'}
-        return {'a': 'currency_new', 'sym': s, 'minor': 2, 'sf': None,
-                'expect': 'reject', 'bad': 'dup_symbol'}
+        return {'a': 'currency_new', 'sym': s,
+                'minor': [2, 0, 3, None][r[4] % 4],
+                'sf': [None, None, '0.5'][r[5] % 3] if r[4] % 4 == 3
+                else None, 'expect': 'reject', 'bad': 'dup_symbol'}
     if kind == 'empty_symbol':
         form = r[0] % 3
         if form == 0:
@@ -639,6 +641,11 @@ def apply(model: RefDir, act, info=None):
                        bvec=bvec, num=num)
     elif a == 'plain_unit':
         model.add_unit(act['sym'], act['type'], None, 'plain')
+    elif a == 'table_conv':
+        t = model.types[act['type']]
+        t.setdefault('conv_pairs', [])
+        for u1, u2, _f, _o in act['table']:
+            t['conv_pairs'].append((u1, u2))
     elif a == 'currency_reg':
         if act['code'] not in model.units:
             model.add_unit(act['code'], 'Money', None, 'currency')
@@ -822,6 +829,13 @@ def perform(env: Env, act):
             cls = env.types[act['type']]
             u = cls.new_unit(act['sym'])
             env.units[u.symbol] = u
+            return 'ok', {}
+        if a == 'table_conv':
+            from quantity import TableConverter
+            cls = env.types[act['type']]
+            table = {(env.units[u1], env.units[u2]): (int(f), int(o))
+                     for u1, u2, f, o in act['table']}
+            cls.register_converter(TableConverter(table))
             return 'ok', {}
         if a == 'currency_reg':
             from quantity.money import Money
